@@ -3,6 +3,7 @@ package worlds
 import (
 	"encoding/json"
 	"fmt"
+	"strings"
 	"time"
 
 	"github.com/SAP/go-dblib/zz_verif/peer"
@@ -21,6 +22,13 @@ type c07Plan struct {
 	K     int    `json:"k"`
 	// ReadSplit additionally splits the transport reads (0 = no).
 	ReadSize int `json:"read_size,omitempty"`
+	// K2 > K: the package arrives in three parts (two failed attempts before it is complete).
+	K2 int `json:"k2,omitempty"`
+	// Pre: another package (DONE with the more-results flag) precedes the context in the first packet, so the
+	// position the channel rolls back to is not the start of the queue. Post: a final DONE follows the package in
+	// the completing packet.
+	Pre  bool `json:"pre,omitempty"`
+	Post bool `json:"post,omitempty"`
 }
 
 type c07 struct{}
@@ -97,7 +105,7 @@ func (c07) NRuns(tier string) int {
 	return len(c07Build(tier))
 }
 func (c07) Rule() string {
-	return "enumeration: for every zoo package E (quick: every non-data package up to 300 bytes plus one data package per data-type family; thorough: the whole zoo, each case under read sizes all/1..7) and EVERY proper prefix length k in 1..|E|-1, the context format plus E[:k] arrives as a packet without end-of-message, the channel is polled after quiescence, then E[k:] arrives with end-of-message and the channel is polled again; compared with the context alone and with the unfragmented response; non-trivial = 0<k<|E|; distinct = distinct (entry, k); exhaustive over k per entry set"
+	return "enumeration: for every zoo package E (quick: every non-data package up to 300 bytes plus one data package per data-type family; thorough: the whole zoo, each case under read sizes all/1..7) and EVERY proper prefix length k in 1..|E|-1, the context format plus E[:k] arrives as a packet without end-of-message, the channel is polled after quiescence, then E[k:] arrives with end-of-message and the channel is polled again (a fifth of the cases: in two further parts; a third: another package in front of the context; a quarter: a final DONE behind E); compared with the context alone and with the unfragmented response; non-trivial = 0<k<|E|; distinct = distinct (entry, k); exhaustive over k per entry set"
 }
 func (c07) Components() map[string]string {
 	return map[string]string{"tds (reader goroutine, Channel retry/rollback loop, PacketQueue, package and field parsers)": "real (rewritten)", "transport": "stub: simrt.Conn, second part delayed by simulated time", "server": "stub: sim/peer zoo encoders", "clock/contexts": "simulated"}
@@ -112,6 +120,12 @@ func (c07) Gen(r *Rand, idx int, tier string) interface{} {
 	} else if idx%5 == 4 {
 		p.ReadSize = 1 + idx%7
 	}
+	n := len(zooIndex[c.entry].Bytes)
+	if idx%5 == 2 && c.k+1 < n {
+		p.K2 = c.k + 1 + (idx/5)%(n-c.k-1)
+	}
+	p.Pre = idx%3 == 1
+	p.Post = idx%4 == 1
 	return p
 }
 func (c07) Decode(raw json.RawMessage) (interface{}, error) {
@@ -146,9 +160,18 @@ func (c07) Run(plan interface{}, schedSeed uint64, replay []simrt.Choice, lenien
 		v.Machinery = fmt.Sprintf("k=%d out of range for %s (%d bytes)", p.K, p.Entry, len(e.Bytes))
 		return v, nil
 	}
+	if p.Pre {
+		ctx = append(peer.Done(0x11, 0, 4711), ctx...)
+	}
 	full := append(append([]byte{}, ctx...), e.Bytes...)
+	if p.Post {
+		full = append(full, peer.Done(0, 0, 0)...)
+	}
 	cfg0 := simrt.Config{Seed: schedSeed, Strategy: "uniform", ColdQueueLocks: true}
 	polls := []time.Duration{500 * time.Millisecond, 1500 * time.Millisecond}
+	if p.K2 > p.K && p.K2 < len(e.Bytes) {
+		polls = append(polls, 2500*time.Millisecond)
+	}
 	cl := respClient{QueueSize: 100, ReadTimeoutS: 50, PollAt: polls, DrainFor: 20 * time.Second, Hooks: true}
 
 	// baseline: everything in one packet with end-of-message
@@ -168,8 +191,14 @@ func (c07) Run(plan interface{}, schedSeed uint64, replay []simrt.Choice, lenien
 	}
 	cl2 := cl
 	cl2.ReadSizes = rs
-	got := runResp(cfg, respDelivery{Packets: peer.Packetise(full, []int{cut}, peer.BufResponse, 0, true), TermAt: -1,
-		PauseAfterByte: []int{peer.HeaderSize + cut}}, cl2)
+	cuts, pauses := []int{cut}, []int{peer.HeaderSize + cut}
+	if len(polls) == 3 {
+		cut2 := len(ctx) + p.K2
+		cuts = append(cuts, cut2)
+		pauses = append(pauses, 2*peer.HeaderSize+cut2)
+	}
+	got := runResp(cfg, respDelivery{Packets: peer.Packetise(full, cuts, peer.BufResponse, 0, true), TermAt: -1,
+		PauseAfterByte: pauses}, cl2)
 	out := got.Out
 	StdOutcome(v, base.Out)
 	StdOutcome(v, out)
@@ -189,6 +218,7 @@ func (c07) Run(plan interface{}, schedSeed uint64, replay []simrt.Choice, lenien
 		v.Violate("panic", "panic "+CrashSig(c), "truncating %s after %d of %d bytes: task %s panicked: %s\n%s", p.Entry, p.K, len(e.Bytes), c.Task, c.Value, c.Stack)
 	}
 	// split the records at the first poll-end marker
+	// p1: everything seen while the package was incomplete (one or two poll phases), p2: afterwards
 	var p1, p2 []PkgRec
 	phase := 0
 	for _, r := range got.Recs {
@@ -196,7 +226,7 @@ func (c07) Run(plan interface{}, schedSeed uint64, replay []simrt.Choice, lenien
 			phase++
 			continue
 		}
-		if phase == 0 {
+		if phase < len(polls)-1 {
 			p1 = append(p1, r)
 		} else {
 			p2 = append(p2, r)
@@ -216,13 +246,33 @@ func (c07) Run(plan interface{}, schedSeed uint64, replay []simrt.Choice, lenien
 	if errs := errsOnly(p2); len(errs) > 0 {
 		v.Violate("wrong-error", "completed "+kind+": error after the rest arrived", "%s cut after %d of %d bytes: after the rest arrived the channel reported %q", p.Entry, p.K, len(e.Bytes), errs[0])
 	}
+	// hook calls are recorded when the reader makes them, packages when the consumer fetches them: the two
+	// sequences are compared separately (their interleaving depends on when the consumer polls)
 	all := append(pkgsOnly(p1), pkgsOnly(p2)...)
-	if d := firstDiff(pkgsOnly(base.Recs), all); d != "" {
+	split := func(l []string) (hooks, pkgs []string) {
+		for _, d := range l {
+			if strings.HasPrefix(d, "HOOK ") {
+				hooks = append(hooks, d)
+			} else {
+				pkgs = append(pkgs, d)
+			}
+		}
+		return
+	}
+	wantH, wantP := split(pkgsOnly(base.Recs))
+	gotH, gotP := split(all)
+	if d := firstDiff(wantP, gotP); d != "" {
 		v.Violate("wrong-result", "completed "+kind+": result differs from unfragmented parse", "%s cut after %d of %d bytes: %s", p.Entry, p.K, len(e.Bytes), d)
+	}
+	if d := firstDiff(wantH, gotH); d != "" {
+		v.Violate("wrong-result", "completed "+kind+": hook calls differ from unfragmented parse", "%s cut after %d of %d bytes: %s", p.Entry, p.K, len(e.Bytes), d)
 	}
 	v.Nontrivial = fmt.Sprintf("%s@%d", p.Entry, p.K)
 	v.Probe("kind:" + kind)
 	v.Probe("fault:deliver-late")
+	if len(polls) == 3 {
+		v.Probe("two-failed-attempts")
+	}
 	v.Sample = map[string]interface{}{"entry": p.Entry, "k": p.K, "of": len(e.Bytes), "read_size": p.ReadSize}
 	return v, out
 }
